@@ -56,15 +56,31 @@ def make_table(spec):
     return df
 
 
-def fit_vine(vine_type, truncated, df, poison, pseed=0, state=7, seed=None):
+def fit_vine(vine_type, truncated, df, poison, pseed=0, state=7, seed=None, prefit=None):
+    """Fit a vine under the given allocator content.  With ``prefit`` (a table, truncation)
+    the SAME object is first fitted on that other table and used once: "after fit" has to
+    hold for a second fit of a live object just as for the first."""
     from copulas.multivariate import VineCopula
     kwargs = {}
     if seed is not None:
         kwargs['random_state'] = seed
     v = VineCopula(vine_type, **kwargs)
     with sterile(state), Poison(poison, seed=pseed):
+        if prefit is not None:
+            o = outcome(v.fit, prefit[0], truncated=prefit[1])
+            if o[0] == 'ok':
+                outcome(v.sample, 1)
+                outcome(v.get_likelihood, np.full((1, prefit[0].shape[1]), 0.4))
         out = outcome(v.fit, df, truncated=truncated)
     return v, out
+
+
+def prefit_table(spec):
+    """Another table with the same columns (other seed, pattern and row count)."""
+    sp = dict(spec, seed=(spec['seed'] * 7 + 13) % (2**31), n=max(40, spec['n'] // 2 + 11),
+              pattern={'chain': 'star', 'star': 'neg'}.get(spec.get('pattern'), 'chain'))
+    sp.pop('tie_cols', None)
+    return make_table(sp)
 
 
 def structure_signature(vine):
